@@ -23,8 +23,9 @@ PROPS = {
         lean_props="Receptor.Props.C02",
         engines=[dict(engine="wire", pkg=NETC, test="TestVerifWire", n_quick=300, n_thorough=3000),
                  dict(engine="framer", pkg="pkg/framer", test="TestVerifFramer", n_quick=300, n_thorough=3000),
-                 dict(engine="pkt", pkg=NETC, test="TestVerifPkt", n_quick=250, n_thorough=2000)],
-        corr_ops={"wire": ["enc", "dec"], "framer": ["frame", "ops"], "pkt": ["handle", "walk"]},
+                 dict(engine="pkt", pkg=NETC, test="TestVerifPkt", n_quick=250, n_thorough=2000),
+                 dict(engine="link", pkg=NETC, test="TestVerifLink", n_quick=10, n_thorough=150)],
+        corr_ops={"wire": ["enc", "dec"], "framer": ["frame", "ops"], "pkt": ["handle", "walk"], "link": ["send"]},
         facts=["wire_min_len", "wire_from_off", "wire_to_off", "wire_fsvc_off", "wire_tsvc_off", "wire_data_off",
                "wire_ttl_idx", "wire_svc_len", "wire_enc_header", "wire_enc_order", "wire_hash_endian",
                "frame_len_bytes", "frame_endian", "frame_get", "dispatch_key"],
@@ -106,8 +107,8 @@ PROPS = {
     "C15": dict(
         lean_props="Receptor.Props.C15",
         engines=[dict(engine="sig", pkg="pkg/workceptor", test="TestVerifSig", n_quick=260, n_thorough=1365, shardable=False)],
-        corr_ops={"sig": ["command"]},
-        facts=["sig_gate", "sig_should", "sig_unix", "sig_arms", "sig_verify"],
+        corr_ops={"sig": ["command", "replay"]},
+        facts=["sig_gate", "sig_should", "sig_unix", "sig_arms", "sig_verify", "sig_verify_calls", "sig_type_lookup"],
         trusted=["golang-jwt signature / expiry / audience checks and RSA: oracle with ground truth supplied by the harness that mints "
                  "the tokens (classes: absent, empty, garbage, valid, expired, other audience, other key, alg none, HMAC keyed with the "
                  "public key, truncated, future iat with a foreign key)"],
@@ -118,7 +119,7 @@ PROPS = {
         engines=[dict(engine="stream", pkg=NETC, test="TestVerifStream", n_quick=10, n_thorough=120),
                  dict(engine="unreach", pkg=NETC, test="TestVerifUnreach", n_quick=150, n_thorough=1500)],
         corr_ops={"stream": ["transfer"], "unreach": ["deliver", "churn"]},
-        facts=["bridge_loop", "bridge_conns", "stream_first_byte", "stream_close", "stream_readfrom_copy", "stream_quic_adapter", "unreach_dial_cancel"],
+        facts=["bridge_loop", "bridge_conns", "stream_first_byte", "stream_close", "stream_readfrom_copy", "stream_quic_adapter", "stream_link_gone_errors", "unreach_dial_cancel"],
         trusted=["quic-go: reliable, ordered delivery with retransmission over lossy, duplicating, reordering datagram links is the "
                  "library's; it is exercised on every run (1..4 hops, loss up to 8 %, duplication, delays up to 30 ms, a cut of the "
                  "active path with a dearer alternative) but not modelled — the theorems are about Receptor's own relay loop and "
